@@ -101,7 +101,9 @@ CheckPV(ev, name, pv, v) ==
                  ELSE {i \in 1..n : \/ ~(OwnDetailWords(es[i].n) \subseteq SeqToSet(pv.words[i]))
                                     \/ (OwnDetailLit(es[i].n) # "" /\ OwnDetailLit(es[i].n) \notin SeqToSet(pv.lits[i]))}
   IN
-  /\ Chk(pv.starts, ev, name \o ".starts", "verdict", {"C09"}, TRUE, FALSE)
+  /\ IF pv.starts THEN TRUE
+     ELSE MisS(ev, name \o ".starts", "verdict", {"C09"},
+               IF \E i \in 1..Len(Text(v)) : Text(v)[i] = NL THEN {"multiline"} ELSE {"singleline"}, TRUE, FALSE)
   /\ Chk(pv.nent = n, ev, name \o ".entries", "verdict", PropsFor({"C09"}, v), n, pv.nent)
   /\ Chk(pv.depths = wantInd, ev, name \o ".depths", "verdict", PropsFor({"C09"}, v), wantInd, pv.depths)
   /\ Chk(pv.types = wantTypes, ev, name \o ".types", "verdict", {"C09"}, wantTypes, pv.types)
